@@ -179,6 +179,7 @@ def run_schedules(ctx, scheds, tag="m", race=False, free=False, timeout=1500, wo
             env["VERIF_WORLD"] = wpath
         if free:
             env["VERIF_FREE"] = "1"
+            env["VERIF_SLOW_MS"] = "3"
         rc, out = go_test(ctx, PKG, ov, "^TestVerifManager$", env_extra=env, race=race, timeout=timeout)
         outs.append(out)
         got = read_ndjson(trace) if os.path.exists(trace) else []
@@ -585,7 +586,7 @@ def run_c20(ctx):
     rows_f, crashes_f, outs_f = run_schedules(ctx, scheds, tag="race_free", race=True, free=True, timeout=3000)
     # extension: endpoint / listener / webhook goroutines (not schedule driven)
     ov = harness_overlay(ctx, PKG, "manager")
-    rc_e, out_e = go_test(ctx, PKG, ov, "^TestVerifEndpoints$", env_extra={"VERIF_ENDPOINTS": "1"}, race=True, timeout=300)
+    rc_e, out_e = go_test(ctx, PKG, ov, "^TestVerifEndpoints$", env_extra={"VERIF_ENDPOINTS": "1", "VERIF_SLOW_MS": "25"}, race=True, timeout=300)
     if rc_e != 0 and "DATA RACE" not in out_e:
         raise Infra("endpoint scenario failed:\n" + out_e[-3000:])
     outs_f = outs_f + [out_e]
